@@ -9,25 +9,26 @@ from liquid.exceptions import LiquidValueError
 
 def to_liquid_string(val: Any, autoescape: bool) -> str:
     """Stringify a Python object ready for output in a Liquid template."""
-    if isinstance(val, str) or (autoescape and hasattr(val, "__html__")):
-        pass
-    elif isinstance(val, bool):
-        val = str(val).lower()
-    elif val is None:
-        val = ""
-    elif isinstance(val, list):
-        if autoescape:
-            val = Markup("").join(soft_str(itm) for itm in val)
+    try:
+        if isinstance(val, str) or (autoescape and hasattr(val, "__html__")):
+            pass
+        elif isinstance(val, bool):
+            val = str(val).lower()
+        elif val is None:
+            val = ""
+        elif isinstance(val, list):
+            if autoescape:
+                val = Markup("").join(soft_str(itm) for itm in val)
+            else:
+                val = "".join(soft_str(itm) for itm in val)
+        elif isinstance(val, range):
+            val = f"{val.start}..{val.stop - 1}"
         else:
-            val = "".join(soft_str(itm) for itm in val)
-    elif isinstance(val, range):
-        val = f"{val.start}..{val.stop - 1}"
-    else:
-        try:
             val = str(val)
-        except ValueError as err:
-            # An integer with more digits than the int/str conversion limit.
-            raise LiquidValueError(str(err), token=None) from err
+    except ValueError as err:
+        # An integer with more digits than the int/str conversion limit, on its
+        # own, as an item of a list or as the bound of a range.
+        raise LiquidValueError(str(err), token=None) from err
 
     if autoescape:
         val = escape(val)
